@@ -191,7 +191,22 @@ var plans = map[string]*propertyPlan{
 		Explain: "Every return of the reply loops is classified (quorum / Incomplete / context) by postconditions over the ghost history; the progress obligation at each blocking select (an answer is still owed) covers the zero-target case; the future is written exactly once before its single close; QuorumCallError.Is is specified completely."},
 	"C03": {ID: "C03", Level: "other", Pkgs: rootPkg,
 		Explain: "Program-order part of per-node FIFO: every call function hands its requests to enqueue itself (never from a goroutine) and before it starts its handler goroutine or returns; enqueue registers before it queues and queues exactly the request it was given; newChannel starts exactly one sender and newNodeStream at most one receiver; the sender passes each dequeued request to sendMsg at most once, sendMsg calls SendMsg at most once and synchronously; the server loop starts at most one handler per received message and receives the next message only after the hand-over mutex came back. That Go channels and one gRPC stream are FIFO, and that these facts compose under every schedule, is trusted."},
-	"C04": {ID: "C04", Level: "proof", Pkgs: rootPkg,
+	"C04": {ID: "C04", Level: "proof", Pkgs: rootPkg, Gen: true, GenServers: true,
+		Extra: func(s *Session, tier string) []*FuncResult {
+			if curGen == nil {
+				return nil
+			}
+			// the implicit release when a handler returns lives in generated code: every handler the
+			// regenerated Register<S>Server functions register must release on return
+			all := curGen.ScanServers(s, "C04")
+			res := &FuncResult{Name: all.Name, HasContract: true}
+			for _, o := range all.Obligs {
+				if strings.HasSuffix(o.Name, "/releases-on-return") || strings.HasSuffix(o.Name, "/calls-impl-method-once") || strings.HasSuffix(o.Name, "/exists") {
+					res.Obligs = append(res.Obligs, o)
+				}
+			}
+			return []*FuncResult{res}
+		},
 		Explain: "NodeStream's hand-over protocol proved with ghost counters and a lock token: the loop holds the per-stream mutex at every RecvMsg and at every handler start, hands it to exactly the handler it starts (fresh Once, pointer to this stream's mutex, this stream's context) and re-acquires it before the next receive; Release unlocks only through its Once; the request object handed to a handler was allocated for it and is never handed to (or reused for) a later handler, so a released handler can still read its own request. Relative to sync.Mutex/sync.Once contracts."},
 	"C05": {ID: "C05", Level: "proof", Pkgs: rootPkg, Extra: modeScan("C05"),
 		Explain: "Router monitor (responseMut) with send credits: enqueue registers exactly the caller's channel under the request's message id before queuing; routeResponse sends only on the channel registered under the id, at most once, deletes a non-streaming entry in the same critical section and leaves every other entry untouched (frame over the whole map); unknown ids are dropped; every response constructed by the channel carries its node's id; reply channels are fresh per call; the message-id counter is only touched atomically."},
@@ -228,6 +243,19 @@ var plans = map[string]*propertyPlan{
 				"gengorums.findIdentifiers":                 "bundle time only: identifiers are collected per package and sorted (sort.Strings) before the first element is used",
 			})}
 			out = append(out, NestedCallTypesExclusive(s, "C16")...)
+			out = append(out, ReservedNamesRejected(s, "C16"))
+			if curGen != nil && len(curGen.Pkgs) > 0 {
+				// bounded: the code regenerated for the repository's own descriptors (and their renamed
+				// variants) type-checks together with the committed message code
+				res := &FuncResult{Name: "regenerated-code-compiles (bounded)", HasContract: true}
+				_, lerr := Load(RepoDir, curGen.Pkgs, curGen.Overlay)
+				detail := fmt.Sprintf("%d packages with regenerated *_gorums.pb.go files type-check", len(curGen.Pkgs))
+				if lerr != nil {
+					detail = "the regenerated code does not compile: " + truncate(lerr.Error(), 1500)
+				}
+				structOblig(res, "gen/compiles[regenerated output of the repository's descriptors]", lerr == nil, detail, "C16")
+				out = append(out, res)
+			}
 			if curGen != nil {
 				out = append(out, curGen.GeneratorRuns("C16", runs))
 			}
